@@ -73,7 +73,15 @@ func runD14(t *testing.T, c d14Cfg) {
 	// a second resource rule in the same API group/version whose ignoreStatusChanges setting is the
 	// opposite of the first rule's: the setting is per rule
 	ti2 := sim.GadgetThingInfo
-	cfg := dworldCfg{ID: uid, Targets: []sim.ResourceInfo{ti, ti2}, FinalizeHook: c.Finalize, IgnoreStatus: c.IgnoreStatus, IgnoreStatusExcept: map[string]bool{ti2.Resource: true}, CustomizeHook: true,
+	// the first rule also has an annotation selector, the second has none (selectors are per rule,
+	// whatever the order of the rules)
+	targets := []sim.ResourceInfo{ti, ti2}
+	if c.IgnoreStatus {
+		targets = []sim.ResourceInfo{ti2, ti}
+	}
+	annKey := "watch-" + uid
+	cfg := dworldCfg{ID: uid, Targets: targets, FinalizeHook: c.Finalize,
+		RuleAnnotationSel: map[string]*v1alpha1.AnnotationSelector{ti.Resource: {MatchAnnotations: map[string]string{annKey: "yes"}}, ti2.Resource: nil}, IgnoreStatus: c.IgnoreStatus, IgnoreStatusExcept: map[string]bool{ti2.Resource: true}, CustomizeHook: true,
 		LabelSel:    &metav1.LabelSelector{MatchLabels: map[string]string{"decorate": uid}},
 		Attachments: []attachCfg{{Info: ai, Method: v1alpha1.ChildUpdateInPlace}}}
 	w := newDWorld(cfg)
@@ -95,6 +103,7 @@ func runD14(t *testing.T, c d14Cfg) {
 		o := sim.NewObject(ti, ns, name+"-"+uid)
 		if selected {
 			sim.SetLabels(o, map[string]string{"decorate": uid})
+			sim.SetNested(o, "yes", "metadata", "annotations", annKey)
 		}
 		if fin {
 			sim.SetNested(o, []interface{}{finName}, "metadata", "finalizers")
@@ -231,8 +240,11 @@ func runD14(t *testing.T, c d14Cfg) {
 	expect("target-delete(not selected,carries finalizer)", []string{tlKey}, func() { s.ExtDelete(ti.GVR(), ns, "tl-"+uid, "") })
 	expect("target-add(not selected)", none, func() { s.MustCreate(ti.GVR(), mk("tz", false, false)) })
 	expect("target-delete(not selected)", none, func() { s.ExtDelete(ti.GVR(), ns, "tz-"+uid, "") })
-	expect("target-relabel-to-select", []string{parentKey(tn)}, func() {
+	expect("target-relabel(label selector satisfied, annotation selector not)", none, func() {
 		s.ExtMutate(ti.GVR(), ns, sim.Name(tn), func(o sim.Obj) { sim.SetLabels(o, map[string]string{"decorate": uid}) })
+	})
+	expect("target-annotate-to-select", []string{parentKey(tn)}, func() {
+		s.ExtMutate(ti.GVR(), ns, sim.Name(tn), func(o sim.Obj) { sim.SetNested(o, "yes", "metadata", "annotations", annKey) })
 	})
 	expect("target-relabel-to-unselect", none, func() {
 		s.ExtMutate(ti.GVR(), ns, sim.Name(tn), func(o sim.Obj) { sim.SetLabels(o, map[string]string{"decorate": "no"}) })
